@@ -189,6 +189,13 @@ Section Pipeline.
         do vs <- dec_headers r hdoc; Ok (v :: vs)
     end.
 
+  (** headers are decoded only when the envelope has a Header element and the method declares header classes *)
+  Definition hdr_in (classes : list cid) (hdoc : option (list xnode)) : out (option (list val)) :=
+    match hdoc, classes with
+    | Some hd, _ :: _ => do hs <- dec_headers classes hd; Ok (Some hs)
+    | _, _ => Ok None
+    end.
+
   (** the value handed to to_parent and its (type, element name) *)
   Definition out_value (i : nat) (m : method) (ret : val) : out val :=
     match m_style m with
@@ -219,17 +226,20 @@ Section Pipeline.
     | _, _ => Ok []                                                                  (* zip *)
     end.
 
+  (** a Header element is written only when there are header values and declared header classes *)
+  Definition hdr_out (classes : list cid) (hv : option (list val)) : out (option (list xnode)) :=
+    match hv, classes with
+    | Some l, _ :: _ => do hs <- enc_headers classes l; Ok (Some hs)
+    | _, _ => Ok None
+    end.
+
   (** protocol.serialize(ctx, RESPONSE) *)
   Definition serialize (i : nat) (m : method) (ret : val) (ohdr : option (list val)) : out xnode :=
     do v <- out_value i m ret;
     do body <- enc L U fuel (fst (resp_ty U0 i m)) (s_tns Sv) (m_name m ++ t_Response) v;
     match P with
     | PXml => Ok body
-    | _ =>
-        match ohdr, m_out_header m with
-        | Some hv, (_ :: _) as hc => do hs <- enc_headers hc hv; Ok (envelope P (Some hs) body)
-        | _, _ => Ok (envelope P None body)
-        end
+    | _ => do hs <- hdr_out (m_out_header m) ohdr; Ok (envelope P hs body)
     end.
 
   (** ServerBase.generate_contexts + get_in_object + get_out_object + get_out_string *)
@@ -251,11 +261,7 @@ Section Pipeline.
           | None => RFault [] FNotFound
           | Some (i, m) =>
               (* deserialize *)
-              let hres := match hdoc, m_in_header m with
-                          | Some hd, (_ :: _) as hc => do hs <- dec_headers hc hd; Ok (Some hs)
-                          | _, _ => Ok None
-                          end in
-              match hres with
+              match hdr_in (m_in_header m) hdoc with
               | VFault => RFault [] FValidation
               | Crash e => RCrash [] e
               | Ok ihdr0 =>
@@ -300,11 +306,7 @@ Section Pipeline.
     do body <- enc L U fuel (fst (req_ty U0 i m)) (s_tns Sv) (m_name m) v;
     match P with
     | PXml => Ok body
-    | _ =>
-        match hdr, m_in_header m with
-        | Some hv, (_ :: _) as hc => do hs <- enc_headers hc hv; Ok (envelope P (Some hs) body)
-        | _, _ => Ok (envelope P None body)
-        end
+    | _ => do hs <- hdr_out (m_in_header m) hdr; Ok (envelope P hs body)
     end.
 
   (** reading the response with the out message: get_in_object's decompose + deserialize,
@@ -318,10 +320,7 @@ Section Pipeline.
     | inl _ => VFault
     | inr (_, None) => Crash AttributeError
     | inr (hdoc, Some body) =>
-        do ohdr0 <- match hdoc, m_out_header m with
-                    | Some hd, (_ :: _) as hc => do hs <- dec_headers hc hd; Ok (Some hs)
-                    | _, _ => Ok None
-                    end;
+        do ohdr0 <- hdr_in (m_out_header m) hdoc;
         let ohdr := match ohdr0 with Some [VNone] => None | _ => ohdr0 end in   (* len(headers) == 1: the header itself *)
         do v <- dec L C U fuel (fst (resp_ty U0 i m)) (snd (resp_ty U0 i m)) body;
         match m_style m, m_returns m, v with
